@@ -265,7 +265,11 @@ Viol(o, g) ==
         \cup {"down-host-marked-up" : i \in MustNot \ o.down}
         \cup (IF o.refreshes > RefreshBound THEN {"refresh-storm"} ELSE {})
   IN \* a panic is reported alone; a wrong ring content is reported without what follows from it
-     IF o.panic # "" THEN {"panic"} ELSE IF ringV # {} THEN ringV ELSE restV
+     IF o.panic # "" THEN {"panic"}
+     \* a refresh was asked for and can never return: the goroutine that performs the refreshes is
+     \* itself waiting for a refresh (reported by the harness from the goroutines' stacks)
+     ELSE IF o.stuck # "" THEN {"refresh-never-returns"}
+     ELSE IF ringV # {} THEN ringV ELSE restV
 
 \* the observation a model state corresponds to
 ObsOf(dd, nref) ==
@@ -273,7 +277,7 @@ ObsOf(dd, nref) ==
    poolA |-> [i \in dd.pool \cap DOMAIN dd.hosts |-> dd.hosts[i].addr],
    polE |-> {[id |-> i, addr |-> dd.hosts[i].addr] : i \in dd.pol \cap DOMAIN dd.hosts},
    down |-> dd.down, served |-> {dd.hosts[i].addr : i \in (dd.pool \cap dd.pol) \ dd.down},
-   refreshes |-> nref, panic |-> ""]
+   refreshes |-> nref, panic |-> "", stuck |-> ""]
 
 (***************************************************************************)
 (* The state machine                                                       *)
@@ -339,6 +343,24 @@ NodeRecover(rows, a) ==
        ELSE /\ g' = [g EXCEPT !.reach = @ \cup {a}]
             /\ UNCHANGED d
             /\ nref' = 0
+
+\* The control node answers again, but the session has not re-established its control connection
+\* yet (that happens with the next beat of its heartbeat): nothing changes for it - a refresh in this
+\* state fails like any refresh without control connection and has to RETURN - ...
+Heal(rows) ==
+  /\ C0addr \notin g.reach /\ ~g.ctl
+  /\ truth' = rows
+  /\ g' = [g EXCEPT !.reach = @ \cup {C0addr}]
+  /\ UNCHANGED d
+  /\ nref' = 0
+
+\* ... and then the control connection is re-established: control node connected, ring refreshed
+Reconnect(rows) ==
+  /\ C0addr \in g.reach /\ ~g.ctl
+  /\ truth' = rows
+  /\ g' = Plain(DoRefreshG(GhostControlBack(g), rows, Filt))
+  /\ d' = ApplyRefresh(StartFill(d, C0id, g.reach), rows, Filt, g.reach)
+  /\ nref' = 1
 
 \* the control connection is cut while the control node keeps answering
 ControlLost(rows) ==
